@@ -68,7 +68,7 @@ def equivalent_to_atom(fn_node, test, atom_text):
     return eval_test(t, mk(True)) is True and eval_test(t, mk(False)) is False
 
 
-def scenario_edges(g, fn_node, atom, resolve=True):
+def scenario_edges(g, fn_node, atom, resolve=True, aliases=True):
     """edge filter for CFG.reach: a branch edge is kept unless the test (local flags resolved) evaluates, three-valued under `atom`, to the
     opposite outcome"""
     cache = {}
@@ -77,6 +77,9 @@ def scenario_edges(g, fn_node, atom, resolve=True):
         if n_.kind != 'test' or lab not in ('T', 'F'): return True
         if x not in cache:
             t = resolve_flags(fn_node, n_.ast) if resolve else n_.ast
+            # within a scenario every atom has one truth value for the whole run, so a local that merely names an attribute read
+            # (`is_volatile = attr.is_volatile`, bound once) can be replaced by what it stands for
+            if aliases: t = resolve_flags(fn_node, t, depth=0, attrs=True)
             cache[x] = eval_test(t, atom)
         v = cache[x]
         return v is None or v == (lab == 'T')
